@@ -1444,6 +1444,7 @@ class ContinuousSpace:
 
         deltas = np.abs(self._agent_points - np.array(pos))
         if self.torus:
+            deltas = np.mod(deltas, self.size)
             deltas = np.minimum(deltas, self.size - deltas)
         dists = deltas[:, 0] ** 2 + deltas[:, 1] ** 2
 
@@ -1469,6 +1470,7 @@ class ContinuousSpace:
         two = np.array(pos_2)
         heading = two - one
         if self.torus:
+            heading = np.fmod(heading, self.size)
             inverse_heading = heading - np.sign(heading) * self.size
 
             def get_min_abs(x, y):
@@ -1498,6 +1500,7 @@ class ContinuousSpace:
         dx = abs(x1 - x2)
         dy = abs(y1 - y2)
         if self.torus:
+            dx, dy = dx % self.width, dy % self.height
             dx = min(dx, self.width - dx)
             dy = min(dy, self.height - dy)
         return math.sqrt(dx * dx + dy * dy)
